@@ -724,7 +724,7 @@ theorem LRange.wf_mem {r : LRange} (h : r.wf = true) {e : Entry} (he : e ∈ r.e
 
 open MpVerif.Gen in
 theorem execRange_pre (k : Kind) (r : LRange) (hwf : r.wf = true) (S : St) :
-    execRange ValCvt.runTables .pre k r S = some (r.entries.foldl (fun S e => preEntry k e S) S) := by
+    execRange ValCvt.runTables (methodName .pre k) .pre k r S = some (r.entries.foldl (fun S e => preEntry k e S) S) := by
   unfold execRange
   cases hc : r.cls with
   | r2sLink => simp only [C04_gen_indiv_loops, if_true, orderBy]
@@ -751,7 +751,7 @@ theorem execRange_pre (k : Kind) (r : LRange) (hwf : r.wf = true) (S : St) :
 
 open MpVerif.Gen in
 theorem execRange_post (k : Kind) (r : LRange) (hwf : r.wf = true) (S : St) :
-    execRange ValCvt.runTables .post k r S = runEntriesPost k r.entries.reverse S := by
+    execRange ValCvt.runTables (methodName .post k) .post k r S = runEntriesPost k r.entries.reverse S := by
   unfold execRange
   cases hc : r.cls with
   | r2sLink => simp only [C04_gen_indiv_loops, if_true, orderBy]
@@ -780,7 +780,7 @@ theorem execRange_post (k : Kind) (r : LRange) (hwf : r.wf = true) (S : St) :
 
 open MpVerif.Gen in
 theorem execRanges_pre (k : Kind) (rs : List LRange) (hwf : ∀ r ∈ rs, r.wf = true) (S : St) :
-    execRanges ValCvt.runTables .pre k rs S = some ((rs.map (·.entries)).flatten.foldl (fun S e => preEntry k e S) S) := by
+    execRanges ValCvt.runTables (methodName .pre k) .pre k rs S = some ((rs.map (·.entries)).flatten.foldl (fun S e => preEntry k e S) S) := by
   induction rs generalizing S with
   | nil => rfl
   | cons r rs ih =>
@@ -789,7 +789,7 @@ theorem execRanges_pre (k : Kind) (rs : List LRange) (hwf : ∀ r ∈ rs, r.wf =
 
 open MpVerif.Gen in
 theorem execRanges_post (k : Kind) (rs : List LRange) (hwf : ∀ r ∈ rs, r.wf = true) (S : St) :
-    execRanges ValCvt.runTables .post k rs S = runEntriesPost k (rs.map (fun r => r.entries.reverse)).flatten S := by
+    execRanges ValCvt.runTables (methodName .post k) .post k rs S = runEntriesPost k (rs.map (fun r => r.entries.reverse)).flatten S := by
   induction rs generalizing S with
   | nil => rfl
   | cons r rs ih =>
@@ -797,6 +797,18 @@ theorem execRanges_post (k : Kind) (rs : List LRange) (hwf : ∀ r ∈ rs, r.wf 
     congr 1
     funext S'
     exact ih (fun r' hr' => hwf r' (by simp [hr'])) _
+
+open MpVerif.Gen in
+/-- every public method `<dir><kind>(mv)` of `ValuePresolverImpl` calls the run function of ITS direction and passes the pointer of the
+    `BasicLink` method of the SAME name (direction and kind) -/
+theorem C04_gen_entry_points (d : Dir) (k : Kind) : lookupEntry ValCvt.runTables (methodName d k) =
+    some (match d with | .pre => "RunPresolve" | .post => "RunPostsolve", methodName d k) := by
+  cases d <;> cases k <;> decide
+
+open MpVerif.Gen in
+theorem C04_gen_run_progs : runProg ValCvt.runTables "RunPresolve" = some ValCvt.runTables.runPre ∧
+    runProg ValCvt.runTables "RunPostsolve" = some ValCvt.runTables.runPost := by
+  constructor <;> decide
 
 open MpVerif.Gen in
 /-- **The translated control structure IS the model's run**: interpreting the programmes generated from `RunPresolve` / `RunPostsolve`,
@@ -809,10 +821,12 @@ theorem C04_gen_run_is_runFromReg (sizes : List Nat) (ranges : List LRange) (hwf
   unfold execRun runFromReg
   cases hd : c.dir with
   | pre =>
-    show execStmts ValCvt.runTables _ ranges c [.cleanNodes, .load .src, .loopRanges .fwd, .ret .dest] prev = _
+    simp only [C04_gen_entry_points, C04_gen_run_progs]
+    show execStmts ValCvt.runTables _ ranges (methodName .pre c.kind) c [.cleanNodes, .load .src, .loopRanges .fwd, .ret .dest] prev = _
     simp only [execStmts, hd, Dir.inSide, Dir.outSide, if_true, orderBy, execRanges_pre c.kind ranges hwf, Option.bind_some, runPre]
   | post =>
-    show execStmts ValCvt.runTables _ ranges c [.cleanNodes, .load .dest, .loopRanges .bwd, .ret .src] prev = _
+    simp only [C04_gen_entry_points, C04_gen_run_progs]
+    show execStmts ValCvt.runTables _ ranges (methodName .post c.kind) c [.cleanNodes, .load .dest, .loopRanges .bwd, .ret .src] prev = _
     simp only [execStmts, hd, Dir.inSide, Dir.outSide, if_true, orderBy,
       execRanges_post c.kind ranges.reverse (fun r hr => hwf r (List.mem_reverse.mp hr)), runPost]
     have hfl : (ranges.reverse.map (fun r => r.entries.reverse)).flatten = ((ranges.map (·.entries)).flatten).reverse := by
@@ -827,8 +841,10 @@ open MpVerif.Gen in
 theorem C04_gen_run_generic_int_same :
     (∀ d, lookupProg ValCvt.runTables .copyLink (dirName d ++ "GenericInt") = lookupProg ValCvt.runTables .copyLink (methodName d .generic)) ∧
     (∀ d, lookupProg ValCvt.runTables .m2mLink (dirName d ++ "GenericInt") = lookupProg ValCvt.runTables .m2mLink (methodName d .generic)) ∧
-    (∀ d, (lookupIndiv ValCvt.runTables (dirName d ++ "GenericInt")).map (·.1) = (lookupIndiv ValCvt.runTables (methodName d .generic)).map (·.1)) := by
-  refine ⟨fun d => ?_, fun d => ?_, fun d => ?_⟩ <;> cases d <;> decide
+    (∀ d, (lookupIndiv ValCvt.runTables (dirName d ++ "GenericInt")).map (·.1) = (lookupIndiv ValCvt.runTables (methodName d .generic)).map (·.1)) ∧
+    (∀ d, lookupEntry ValCvt.runTables (dirName d ++ "GenericInt") =
+      some (match d with | .pre => "RunPresolve" | .post => "RunPostsolve", dirName d ++ "GenericInt")) := by
+  refine ⟨fun d => ?_, fun d => ?_, fun d => ?_, fun d => ?_⟩ <;> cases d <;> decide
 
 /-- non-vacuity: the example graph as three well-formed link ranges (CopyLink with two entries, RangeCon2Slack, CopyLink) -/
 example : (let rs : List LRange := [⟨.copyLink, exampleGraph.entries.take 2⟩, ⟨.r2sLink, (exampleGraph.entries.drop 2).take 1⟩,
